@@ -35,11 +35,33 @@ macro_rules! float_endpoints {
 /// K: asserts=precise formula returns `from` exactly at 0 and `to` exactly at 1; clamped form saturates
 #[kani::proof]
 fn c12_q_f32_precise_endpoints() { float_endpoints!(f32) }
-/// K: fns=f64::lerp_unclamped_precise,<&f64>::lerp_unclamped_precise,f64::lerp_precise,f64::lerp_unclamped_precise_inclusive_range
-/// K: inst=f64 | bound=all finite (from,to); factor 0, 1, and any non-NaN factor outside (0,1) for the clamped form
-/// K: asserts=precise formula returns `from` exactly at 0 and `to` exactly at 1; clamped form saturates
+/// K: fns=f64::lerp_unclamped_precise,<&f64>::lerp_unclamped_precise | inst=f64 | bound=all finite (from,to); factor 0 and 1
+/// K: asserts=precise formula returns `from` exactly at 0 and `to` exactly at 1, by value and by reference
 #[kani::proof]
-fn c12_q_f64_precise_endpoints() { float_endpoints!(f64) }
+fn c12_q_f64_precise_endpoints() {
+    let (a, b): (f64, f64) = (kani::any(), kani::any());
+    kani::assume(a.is_finite() && b.is_finite());
+    kani::cover!(a > 1.0e300 && b < -1.0e300, "huge endpoints of opposite sign");
+    kani::cover!(a != b && a.abs() < 1.0e-300, "tiny endpoint");
+    assert!(<f64 as Lerp<f64>>::lerp_unclamped_precise(a, b, 0.0) == a);
+    assert!(<f64 as Lerp<f64>>::lerp_unclamped_precise(a, b, 1.0) == b);
+    assert!(<&f64 as Lerp<f64>>::lerp_unclamped_precise(&a, &b, 0.0) == a);
+    assert!(<&f64 as Lerp<f64>>::lerp_unclamped_precise(&a, &b, 1.0) == b);
+}
+/// K: fns=f64::lerp_precise,f64::lerp_unclamped_precise_inclusive_range | inst=f64 | bound=all finite (from,to); any non-NaN factor outside (0,1)
+/// K: asserts=clamped precise form returns `from` for every factor <= 0 and `to` for every factor >= 1; range form equals pair form at 1
+#[kani::proof]
+fn c12_t_f64_precise_clamped_endpoints() {
+    let (a, b): (f64, f64) = (kani::any(), kani::any());
+    kani::assume(a.is_finite() && b.is_finite());
+    let t: f64 = kani::any();
+    kani::assume(!t.is_nan());
+    kani::cover!(t < -1.0e10 && a != b);
+    kani::cover!(t > 1.0 && a != b);
+    if t <= 0.0 { assert!(<f64 as Lerp<f64>>::lerp_precise(a, b, t) == a); }
+    if t >= 1.0 { assert!(<f64 as Lerp<f64>>::lerp_precise(a, b, t) == b); }
+    assert!(<f64 as Lerp<f64>>::lerp_unclamped_precise_inclusive_range(a..=b, 1.0) == b);
+}
 
 /// Integer lerp of `$T` with factor type `$F` at the ONE concrete factor k/2^sh: all endpoint pairs.
 /// (One factor per harness: the float pipelines of different factors are independent, and CBMC
@@ -66,8 +88,9 @@ macro_rules! int_lerp_at {
     }};
 }
 
-// ---- quick: u8/i8 with f32 at k/8 for every k in [-8,16]; with f64 at k/8 for k in {-8,-4,0,4,8,12,16}
-// (the other even k with f64 are thorough-only, named c12_t_*) ----
+// ---- quick (named c12_q_*): u8 x f32 at k/8 for k in {-8,-4,-3,0,2,4,5,8,12,16}; i8 x f32 for k in {-8,-4,-3,0,2,4,8,12,16};
+// u8 x f64 for k in {-8,0,4,16}; i8 x f64 for k in {-8,0,4}. Every other k of the k/8 grid in [-8,16] is thorough-only
+// (c12_t_*): the thorough tier covers the full grid [-8,16]/8 for f32 and for f64, both u8 and i8. ----
 /// K: fns=u8::lerp_unclamped,u8::lerp_unclamped_precise,<&u8>::lerp_unclamped,<&u8>::lerp_precise (Lerp<f32>) | inst=u8, factor f32 = -8/8 | bound=ALL (from,to) pairs, one concrete factor
 /// K: asserts=result = round_half_away((8*from + -8*(to-from))/8) whenever that fits u8 (oracle in i32); fast, precise, by-reference; clamped form = value at clamp01(factor); no panic
 #[kani::proof]
@@ -75,15 +98,15 @@ fn c12_q_u8_lerp_f32_m8of8() { int_lerp_at!(u8, f32, 3, -8) }
 /// K: fns=u8::lerp_unclamped,u8::lerp_unclamped_precise,<&u8>::lerp_unclamped,<&u8>::lerp_precise (Lerp<f32>) | inst=u8, factor f32 = -7/8 | bound=ALL (from,to) pairs, one concrete factor
 /// K: asserts=result = round_half_away((8*from + -7*(to-from))/8) whenever that fits u8 (oracle in i32); fast, precise, by-reference; clamped form = value at clamp01(factor); no panic
 #[kani::proof]
-fn c12_q_u8_lerp_f32_m7of8() { int_lerp_at!(u8, f32, 3, -7) }
+fn c12_t_u8_lerp_f32_m7of8() { int_lerp_at!(u8, f32, 3, -7) }
 /// K: fns=u8::lerp_unclamped,u8::lerp_unclamped_precise,<&u8>::lerp_unclamped,<&u8>::lerp_precise (Lerp<f32>) | inst=u8, factor f32 = -6/8 | bound=ALL (from,to) pairs, one concrete factor
 /// K: asserts=result = round_half_away((8*from + -6*(to-from))/8) whenever that fits u8 (oracle in i32); fast, precise, by-reference; clamped form = value at clamp01(factor); no panic
 #[kani::proof]
-fn c12_q_u8_lerp_f32_m6of8() { int_lerp_at!(u8, f32, 3, -6) }
+fn c12_t_u8_lerp_f32_m6of8() { int_lerp_at!(u8, f32, 3, -6) }
 /// K: fns=u8::lerp_unclamped,u8::lerp_unclamped_precise,<&u8>::lerp_unclamped,<&u8>::lerp_precise (Lerp<f32>) | inst=u8, factor f32 = -5/8 | bound=ALL (from,to) pairs, one concrete factor
 /// K: asserts=result = round_half_away((8*from + -5*(to-from))/8) whenever that fits u8 (oracle in i32); fast, precise, by-reference; clamped form = value at clamp01(factor); no panic
 #[kani::proof]
-fn c12_q_u8_lerp_f32_m5of8() { int_lerp_at!(u8, f32, 3, -5) }
+fn c12_t_u8_lerp_f32_m5of8() { int_lerp_at!(u8, f32, 3, -5) }
 /// K: fns=u8::lerp_unclamped,u8::lerp_unclamped_precise,<&u8>::lerp_unclamped,<&u8>::lerp_precise (Lerp<f32>) | inst=u8, factor f32 = -4/8 | bound=ALL (from,to) pairs, one concrete factor
 /// K: asserts=result = round_half_away((8*from + -4*(to-from))/8) whenever that fits u8 (oracle in i32); fast, precise, by-reference; clamped form = value at clamp01(factor); no panic
 #[kani::proof]
@@ -95,11 +118,11 @@ fn c12_q_u8_lerp_f32_m3of8() { int_lerp_at!(u8, f32, 3, -3) }
 /// K: fns=u8::lerp_unclamped,u8::lerp_unclamped_precise,<&u8>::lerp_unclamped,<&u8>::lerp_precise (Lerp<f32>) | inst=u8, factor f32 = -2/8 | bound=ALL (from,to) pairs, one concrete factor
 /// K: asserts=result = round_half_away((8*from + -2*(to-from))/8) whenever that fits u8 (oracle in i32); fast, precise, by-reference; clamped form = value at clamp01(factor); no panic
 #[kani::proof]
-fn c12_q_u8_lerp_f32_m2of8() { int_lerp_at!(u8, f32, 3, -2) }
+fn c12_t_u8_lerp_f32_m2of8() { int_lerp_at!(u8, f32, 3, -2) }
 /// K: fns=u8::lerp_unclamped,u8::lerp_unclamped_precise,<&u8>::lerp_unclamped,<&u8>::lerp_precise (Lerp<f32>) | inst=u8, factor f32 = -1/8 | bound=ALL (from,to) pairs, one concrete factor
 /// K: asserts=result = round_half_away((8*from + -1*(to-from))/8) whenever that fits u8 (oracle in i32); fast, precise, by-reference; clamped form = value at clamp01(factor); no panic
 #[kani::proof]
-fn c12_q_u8_lerp_f32_m1of8() { int_lerp_at!(u8, f32, 3, -1) }
+fn c12_t_u8_lerp_f32_m1of8() { int_lerp_at!(u8, f32, 3, -1) }
 /// K: fns=u8::lerp_unclamped,u8::lerp_unclamped_precise,<&u8>::lerp_unclamped,<&u8>::lerp_precise (Lerp<f32>) | inst=u8, factor f32 = 0/8 | bound=ALL (from,to) pairs, one concrete factor
 /// K: asserts=result = round_half_away((8*from + 0*(to-from))/8) whenever that fits u8 (oracle in i32); fast, precise, by-reference; clamped form = value at clamp01(factor); no panic
 #[kani::proof]
@@ -107,7 +130,7 @@ fn c12_q_u8_lerp_f32_0of8() { int_lerp_at!(u8, f32, 3, 0) }
 /// K: fns=u8::lerp_unclamped,u8::lerp_unclamped_precise,<&u8>::lerp_unclamped,<&u8>::lerp_precise (Lerp<f32>) | inst=u8, factor f32 = 1/8 | bound=ALL (from,to) pairs, one concrete factor
 /// K: asserts=result = round_half_away((8*from + 1*(to-from))/8) whenever that fits u8 (oracle in i32); fast, precise, by-reference; clamped form = value at clamp01(factor); no panic
 #[kani::proof]
-fn c12_q_u8_lerp_f32_1of8() { int_lerp_at!(u8, f32, 3, 1) }
+fn c12_t_u8_lerp_f32_1of8() { int_lerp_at!(u8, f32, 3, 1) }
 /// K: fns=u8::lerp_unclamped,u8::lerp_unclamped_precise,<&u8>::lerp_unclamped,<&u8>::lerp_precise (Lerp<f32>) | inst=u8, factor f32 = 2/8 | bound=ALL (from,to) pairs, one concrete factor
 /// K: asserts=result = round_half_away((8*from + 2*(to-from))/8) whenever that fits u8 (oracle in i32); fast, precise, by-reference; clamped form = value at clamp01(factor); no panic
 #[kani::proof]
@@ -115,7 +138,7 @@ fn c12_q_u8_lerp_f32_2of8() { int_lerp_at!(u8, f32, 3, 2) }
 /// K: fns=u8::lerp_unclamped,u8::lerp_unclamped_precise,<&u8>::lerp_unclamped,<&u8>::lerp_precise (Lerp<f32>) | inst=u8, factor f32 = 3/8 | bound=ALL (from,to) pairs, one concrete factor
 /// K: asserts=result = round_half_away((8*from + 3*(to-from))/8) whenever that fits u8 (oracle in i32); fast, precise, by-reference; clamped form = value at clamp01(factor); no panic
 #[kani::proof]
-fn c12_q_u8_lerp_f32_3of8() { int_lerp_at!(u8, f32, 3, 3) }
+fn c12_t_u8_lerp_f32_3of8() { int_lerp_at!(u8, f32, 3, 3) }
 /// K: fns=u8::lerp_unclamped,u8::lerp_unclamped_precise,<&u8>::lerp_unclamped,<&u8>::lerp_precise (Lerp<f32>) | inst=u8, factor f32 = 4/8 | bound=ALL (from,to) pairs, one concrete factor
 /// K: asserts=result = round_half_away((8*from + 4*(to-from))/8) whenever that fits u8 (oracle in i32); fast, precise, by-reference; clamped form = value at clamp01(factor); no panic
 #[kani::proof]
@@ -127,11 +150,11 @@ fn c12_q_u8_lerp_f32_5of8() { int_lerp_at!(u8, f32, 3, 5) }
 /// K: fns=u8::lerp_unclamped,u8::lerp_unclamped_precise,<&u8>::lerp_unclamped,<&u8>::lerp_precise (Lerp<f32>) | inst=u8, factor f32 = 6/8 | bound=ALL (from,to) pairs, one concrete factor
 /// K: asserts=result = round_half_away((8*from + 6*(to-from))/8) whenever that fits u8 (oracle in i32); fast, precise, by-reference; clamped form = value at clamp01(factor); no panic
 #[kani::proof]
-fn c12_q_u8_lerp_f32_6of8() { int_lerp_at!(u8, f32, 3, 6) }
+fn c12_t_u8_lerp_f32_6of8() { int_lerp_at!(u8, f32, 3, 6) }
 /// K: fns=u8::lerp_unclamped,u8::lerp_unclamped_precise,<&u8>::lerp_unclamped,<&u8>::lerp_precise (Lerp<f32>) | inst=u8, factor f32 = 7/8 | bound=ALL (from,to) pairs, one concrete factor
 /// K: asserts=result = round_half_away((8*from + 7*(to-from))/8) whenever that fits u8 (oracle in i32); fast, precise, by-reference; clamped form = value at clamp01(factor); no panic
 #[kani::proof]
-fn c12_q_u8_lerp_f32_7of8() { int_lerp_at!(u8, f32, 3, 7) }
+fn c12_t_u8_lerp_f32_7of8() { int_lerp_at!(u8, f32, 3, 7) }
 /// K: fns=u8::lerp_unclamped,u8::lerp_unclamped_precise,<&u8>::lerp_unclamped,<&u8>::lerp_precise (Lerp<f32>) | inst=u8, factor f32 = 8/8 | bound=ALL (from,to) pairs, one concrete factor
 /// K: asserts=result = round_half_away((8*from + 8*(to-from))/8) whenever that fits u8 (oracle in i32); fast, precise, by-reference; clamped form = value at clamp01(factor); no panic
 #[kani::proof]
@@ -139,15 +162,15 @@ fn c12_q_u8_lerp_f32_8of8() { int_lerp_at!(u8, f32, 3, 8) }
 /// K: fns=u8::lerp_unclamped,u8::lerp_unclamped_precise,<&u8>::lerp_unclamped,<&u8>::lerp_precise (Lerp<f32>) | inst=u8, factor f32 = 9/8 | bound=ALL (from,to) pairs, one concrete factor
 /// K: asserts=result = round_half_away((8*from + 9*(to-from))/8) whenever that fits u8 (oracle in i32); fast, precise, by-reference; clamped form = value at clamp01(factor); no panic
 #[kani::proof]
-fn c12_q_u8_lerp_f32_9of8() { int_lerp_at!(u8, f32, 3, 9) }
+fn c12_t_u8_lerp_f32_9of8() { int_lerp_at!(u8, f32, 3, 9) }
 /// K: fns=u8::lerp_unclamped,u8::lerp_unclamped_precise,<&u8>::lerp_unclamped,<&u8>::lerp_precise (Lerp<f32>) | inst=u8, factor f32 = 10/8 | bound=ALL (from,to) pairs, one concrete factor
 /// K: asserts=result = round_half_away((8*from + 10*(to-from))/8) whenever that fits u8 (oracle in i32); fast, precise, by-reference; clamped form = value at clamp01(factor); no panic
 #[kani::proof]
-fn c12_q_u8_lerp_f32_10of8() { int_lerp_at!(u8, f32, 3, 10) }
+fn c12_t_u8_lerp_f32_10of8() { int_lerp_at!(u8, f32, 3, 10) }
 /// K: fns=u8::lerp_unclamped,u8::lerp_unclamped_precise,<&u8>::lerp_unclamped,<&u8>::lerp_precise (Lerp<f32>) | inst=u8, factor f32 = 11/8 | bound=ALL (from,to) pairs, one concrete factor
 /// K: asserts=result = round_half_away((8*from + 11*(to-from))/8) whenever that fits u8 (oracle in i32); fast, precise, by-reference; clamped form = value at clamp01(factor); no panic
 #[kani::proof]
-fn c12_q_u8_lerp_f32_11of8() { int_lerp_at!(u8, f32, 3, 11) }
+fn c12_t_u8_lerp_f32_11of8() { int_lerp_at!(u8, f32, 3, 11) }
 /// K: fns=u8::lerp_unclamped,u8::lerp_unclamped_precise,<&u8>::lerp_unclamped,<&u8>::lerp_precise (Lerp<f32>) | inst=u8, factor f32 = 12/8 | bound=ALL (from,to) pairs, one concrete factor
 /// K: asserts=result = round_half_away((8*from + 12*(to-from))/8) whenever that fits u8 (oracle in i32); fast, precise, by-reference; clamped form = value at clamp01(factor); no panic
 #[kani::proof]
@@ -155,15 +178,15 @@ fn c12_q_u8_lerp_f32_12of8() { int_lerp_at!(u8, f32, 3, 12) }
 /// K: fns=u8::lerp_unclamped,u8::lerp_unclamped_precise,<&u8>::lerp_unclamped,<&u8>::lerp_precise (Lerp<f32>) | inst=u8, factor f32 = 13/8 | bound=ALL (from,to) pairs, one concrete factor
 /// K: asserts=result = round_half_away((8*from + 13*(to-from))/8) whenever that fits u8 (oracle in i32); fast, precise, by-reference; clamped form = value at clamp01(factor); no panic
 #[kani::proof]
-fn c12_q_u8_lerp_f32_13of8() { int_lerp_at!(u8, f32, 3, 13) }
+fn c12_t_u8_lerp_f32_13of8() { int_lerp_at!(u8, f32, 3, 13) }
 /// K: fns=u8::lerp_unclamped,u8::lerp_unclamped_precise,<&u8>::lerp_unclamped,<&u8>::lerp_precise (Lerp<f32>) | inst=u8, factor f32 = 14/8 | bound=ALL (from,to) pairs, one concrete factor
 /// K: asserts=result = round_half_away((8*from + 14*(to-from))/8) whenever that fits u8 (oracle in i32); fast, precise, by-reference; clamped form = value at clamp01(factor); no panic
 #[kani::proof]
-fn c12_q_u8_lerp_f32_14of8() { int_lerp_at!(u8, f32, 3, 14) }
+fn c12_t_u8_lerp_f32_14of8() { int_lerp_at!(u8, f32, 3, 14) }
 /// K: fns=u8::lerp_unclamped,u8::lerp_unclamped_precise,<&u8>::lerp_unclamped,<&u8>::lerp_precise (Lerp<f32>) | inst=u8, factor f32 = 15/8 | bound=ALL (from,to) pairs, one concrete factor
 /// K: asserts=result = round_half_away((8*from + 15*(to-from))/8) whenever that fits u8 (oracle in i32); fast, precise, by-reference; clamped form = value at clamp01(factor); no panic
 #[kani::proof]
-fn c12_q_u8_lerp_f32_15of8() { int_lerp_at!(u8, f32, 3, 15) }
+fn c12_t_u8_lerp_f32_15of8() { int_lerp_at!(u8, f32, 3, 15) }
 /// K: fns=u8::lerp_unclamped,u8::lerp_unclamped_precise,<&u8>::lerp_unclamped,<&u8>::lerp_precise (Lerp<f32>) | inst=u8, factor f32 = 16/8 | bound=ALL (from,to) pairs, one concrete factor
 /// K: asserts=result = round_half_away((8*from + 16*(to-from))/8) whenever that fits u8 (oracle in i32); fast, precise, by-reference; clamped form = value at clamp01(factor); no panic
 #[kani::proof]
@@ -175,15 +198,15 @@ fn c12_q_i8_lerp_f32_m8of8() { int_lerp_at!(i8, f32, 3, -8) }
 /// K: fns=i8::lerp_unclamped,i8::lerp_unclamped_precise,<&i8>::lerp_unclamped,<&i8>::lerp_precise (Lerp<f32>) | inst=i8, factor f32 = -7/8 | bound=ALL (from,to) pairs, one concrete factor
 /// K: asserts=result = round_half_away((8*from + -7*(to-from))/8) whenever that fits i8 (oracle in i32); fast, precise, by-reference; clamped form = value at clamp01(factor); no panic
 #[kani::proof]
-fn c12_q_i8_lerp_f32_m7of8() { int_lerp_at!(i8, f32, 3, -7) }
+fn c12_t_i8_lerp_f32_m7of8() { int_lerp_at!(i8, f32, 3, -7) }
 /// K: fns=i8::lerp_unclamped,i8::lerp_unclamped_precise,<&i8>::lerp_unclamped,<&i8>::lerp_precise (Lerp<f32>) | inst=i8, factor f32 = -6/8 | bound=ALL (from,to) pairs, one concrete factor
 /// K: asserts=result = round_half_away((8*from + -6*(to-from))/8) whenever that fits i8 (oracle in i32); fast, precise, by-reference; clamped form = value at clamp01(factor); no panic
 #[kani::proof]
-fn c12_q_i8_lerp_f32_m6of8() { int_lerp_at!(i8, f32, 3, -6) }
+fn c12_t_i8_lerp_f32_m6of8() { int_lerp_at!(i8, f32, 3, -6) }
 /// K: fns=i8::lerp_unclamped,i8::lerp_unclamped_precise,<&i8>::lerp_unclamped,<&i8>::lerp_precise (Lerp<f32>) | inst=i8, factor f32 = -5/8 | bound=ALL (from,to) pairs, one concrete factor
 /// K: asserts=result = round_half_away((8*from + -5*(to-from))/8) whenever that fits i8 (oracle in i32); fast, precise, by-reference; clamped form = value at clamp01(factor); no panic
 #[kani::proof]
-fn c12_q_i8_lerp_f32_m5of8() { int_lerp_at!(i8, f32, 3, -5) }
+fn c12_t_i8_lerp_f32_m5of8() { int_lerp_at!(i8, f32, 3, -5) }
 /// K: fns=i8::lerp_unclamped,i8::lerp_unclamped_precise,<&i8>::lerp_unclamped,<&i8>::lerp_precise (Lerp<f32>) | inst=i8, factor f32 = -4/8 | bound=ALL (from,to) pairs, one concrete factor
 /// K: asserts=result = round_half_away((8*from + -4*(to-from))/8) whenever that fits i8 (oracle in i32); fast, precise, by-reference; clamped form = value at clamp01(factor); no panic
 #[kani::proof]
@@ -195,11 +218,11 @@ fn c12_q_i8_lerp_f32_m3of8() { int_lerp_at!(i8, f32, 3, -3) }
 /// K: fns=i8::lerp_unclamped,i8::lerp_unclamped_precise,<&i8>::lerp_unclamped,<&i8>::lerp_precise (Lerp<f32>) | inst=i8, factor f32 = -2/8 | bound=ALL (from,to) pairs, one concrete factor
 /// K: asserts=result = round_half_away((8*from + -2*(to-from))/8) whenever that fits i8 (oracle in i32); fast, precise, by-reference; clamped form = value at clamp01(factor); no panic
 #[kani::proof]
-fn c12_q_i8_lerp_f32_m2of8() { int_lerp_at!(i8, f32, 3, -2) }
+fn c12_t_i8_lerp_f32_m2of8() { int_lerp_at!(i8, f32, 3, -2) }
 /// K: fns=i8::lerp_unclamped,i8::lerp_unclamped_precise,<&i8>::lerp_unclamped,<&i8>::lerp_precise (Lerp<f32>) | inst=i8, factor f32 = -1/8 | bound=ALL (from,to) pairs, one concrete factor
 /// K: asserts=result = round_half_away((8*from + -1*(to-from))/8) whenever that fits i8 (oracle in i32); fast, precise, by-reference; clamped form = value at clamp01(factor); no panic
 #[kani::proof]
-fn c12_q_i8_lerp_f32_m1of8() { int_lerp_at!(i8, f32, 3, -1) }
+fn c12_t_i8_lerp_f32_m1of8() { int_lerp_at!(i8, f32, 3, -1) }
 /// K: fns=i8::lerp_unclamped,i8::lerp_unclamped_precise,<&i8>::lerp_unclamped,<&i8>::lerp_precise (Lerp<f32>) | inst=i8, factor f32 = 0/8 | bound=ALL (from,to) pairs, one concrete factor
 /// K: asserts=result = round_half_away((8*from + 0*(to-from))/8) whenever that fits i8 (oracle in i32); fast, precise, by-reference; clamped form = value at clamp01(factor); no panic
 #[kani::proof]
@@ -207,7 +230,7 @@ fn c12_q_i8_lerp_f32_0of8() { int_lerp_at!(i8, f32, 3, 0) }
 /// K: fns=i8::lerp_unclamped,i8::lerp_unclamped_precise,<&i8>::lerp_unclamped,<&i8>::lerp_precise (Lerp<f32>) | inst=i8, factor f32 = 1/8 | bound=ALL (from,to) pairs, one concrete factor
 /// K: asserts=result = round_half_away((8*from + 1*(to-from))/8) whenever that fits i8 (oracle in i32); fast, precise, by-reference; clamped form = value at clamp01(factor); no panic
 #[kani::proof]
-fn c12_q_i8_lerp_f32_1of8() { int_lerp_at!(i8, f32, 3, 1) }
+fn c12_t_i8_lerp_f32_1of8() { int_lerp_at!(i8, f32, 3, 1) }
 /// K: fns=i8::lerp_unclamped,i8::lerp_unclamped_precise,<&i8>::lerp_unclamped,<&i8>::lerp_precise (Lerp<f32>) | inst=i8, factor f32 = 2/8 | bound=ALL (from,to) pairs, one concrete factor
 /// K: asserts=result = round_half_away((8*from + 2*(to-from))/8) whenever that fits i8 (oracle in i32); fast, precise, by-reference; clamped form = value at clamp01(factor); no panic
 #[kani::proof]
@@ -215,7 +238,7 @@ fn c12_q_i8_lerp_f32_2of8() { int_lerp_at!(i8, f32, 3, 2) }
 /// K: fns=i8::lerp_unclamped,i8::lerp_unclamped_precise,<&i8>::lerp_unclamped,<&i8>::lerp_precise (Lerp<f32>) | inst=i8, factor f32 = 3/8 | bound=ALL (from,to) pairs, one concrete factor
 /// K: asserts=result = round_half_away((8*from + 3*(to-from))/8) whenever that fits i8 (oracle in i32); fast, precise, by-reference; clamped form = value at clamp01(factor); no panic
 #[kani::proof]
-fn c12_q_i8_lerp_f32_3of8() { int_lerp_at!(i8, f32, 3, 3) }
+fn c12_t_i8_lerp_f32_3of8() { int_lerp_at!(i8, f32, 3, 3) }
 /// K: fns=i8::lerp_unclamped,i8::lerp_unclamped_precise,<&i8>::lerp_unclamped,<&i8>::lerp_precise (Lerp<f32>) | inst=i8, factor f32 = 4/8 | bound=ALL (from,to) pairs, one concrete factor
 /// K: asserts=result = round_half_away((8*from + 4*(to-from))/8) whenever that fits i8 (oracle in i32); fast, precise, by-reference; clamped form = value at clamp01(factor); no panic
 #[kani::proof]
@@ -223,15 +246,15 @@ fn c12_q_i8_lerp_f32_4of8() { int_lerp_at!(i8, f32, 3, 4) }
 /// K: fns=i8::lerp_unclamped,i8::lerp_unclamped_precise,<&i8>::lerp_unclamped,<&i8>::lerp_precise (Lerp<f32>) | inst=i8, factor f32 = 5/8 | bound=ALL (from,to) pairs, one concrete factor
 /// K: asserts=result = round_half_away((8*from + 5*(to-from))/8) whenever that fits i8 (oracle in i32); fast, precise, by-reference; clamped form = value at clamp01(factor); no panic
 #[kani::proof]
-fn c12_q_i8_lerp_f32_5of8() { int_lerp_at!(i8, f32, 3, 5) }
+fn c12_t_i8_lerp_f32_5of8() { int_lerp_at!(i8, f32, 3, 5) }
 /// K: fns=i8::lerp_unclamped,i8::lerp_unclamped_precise,<&i8>::lerp_unclamped,<&i8>::lerp_precise (Lerp<f32>) | inst=i8, factor f32 = 6/8 | bound=ALL (from,to) pairs, one concrete factor
 /// K: asserts=result = round_half_away((8*from + 6*(to-from))/8) whenever that fits i8 (oracle in i32); fast, precise, by-reference; clamped form = value at clamp01(factor); no panic
 #[kani::proof]
-fn c12_q_i8_lerp_f32_6of8() { int_lerp_at!(i8, f32, 3, 6) }
+fn c12_t_i8_lerp_f32_6of8() { int_lerp_at!(i8, f32, 3, 6) }
 /// K: fns=i8::lerp_unclamped,i8::lerp_unclamped_precise,<&i8>::lerp_unclamped,<&i8>::lerp_precise (Lerp<f32>) | inst=i8, factor f32 = 7/8 | bound=ALL (from,to) pairs, one concrete factor
 /// K: asserts=result = round_half_away((8*from + 7*(to-from))/8) whenever that fits i8 (oracle in i32); fast, precise, by-reference; clamped form = value at clamp01(factor); no panic
 #[kani::proof]
-fn c12_q_i8_lerp_f32_7of8() { int_lerp_at!(i8, f32, 3, 7) }
+fn c12_t_i8_lerp_f32_7of8() { int_lerp_at!(i8, f32, 3, 7) }
 /// K: fns=i8::lerp_unclamped,i8::lerp_unclamped_precise,<&i8>::lerp_unclamped,<&i8>::lerp_precise (Lerp<f32>) | inst=i8, factor f32 = 8/8 | bound=ALL (from,to) pairs, one concrete factor
 /// K: asserts=result = round_half_away((8*from + 8*(to-from))/8) whenever that fits i8 (oracle in i32); fast, precise, by-reference; clamped form = value at clamp01(factor); no panic
 #[kani::proof]
@@ -239,15 +262,15 @@ fn c12_q_i8_lerp_f32_8of8() { int_lerp_at!(i8, f32, 3, 8) }
 /// K: fns=i8::lerp_unclamped,i8::lerp_unclamped_precise,<&i8>::lerp_unclamped,<&i8>::lerp_precise (Lerp<f32>) | inst=i8, factor f32 = 9/8 | bound=ALL (from,to) pairs, one concrete factor
 /// K: asserts=result = round_half_away((8*from + 9*(to-from))/8) whenever that fits i8 (oracle in i32); fast, precise, by-reference; clamped form = value at clamp01(factor); no panic
 #[kani::proof]
-fn c12_q_i8_lerp_f32_9of8() { int_lerp_at!(i8, f32, 3, 9) }
+fn c12_t_i8_lerp_f32_9of8() { int_lerp_at!(i8, f32, 3, 9) }
 /// K: fns=i8::lerp_unclamped,i8::lerp_unclamped_precise,<&i8>::lerp_unclamped,<&i8>::lerp_precise (Lerp<f32>) | inst=i8, factor f32 = 10/8 | bound=ALL (from,to) pairs, one concrete factor
 /// K: asserts=result = round_half_away((8*from + 10*(to-from))/8) whenever that fits i8 (oracle in i32); fast, precise, by-reference; clamped form = value at clamp01(factor); no panic
 #[kani::proof]
-fn c12_q_i8_lerp_f32_10of8() { int_lerp_at!(i8, f32, 3, 10) }
+fn c12_t_i8_lerp_f32_10of8() { int_lerp_at!(i8, f32, 3, 10) }
 /// K: fns=i8::lerp_unclamped,i8::lerp_unclamped_precise,<&i8>::lerp_unclamped,<&i8>::lerp_precise (Lerp<f32>) | inst=i8, factor f32 = 11/8 | bound=ALL (from,to) pairs, one concrete factor
 /// K: asserts=result = round_half_away((8*from + 11*(to-from))/8) whenever that fits i8 (oracle in i32); fast, precise, by-reference; clamped form = value at clamp01(factor); no panic
 #[kani::proof]
-fn c12_q_i8_lerp_f32_11of8() { int_lerp_at!(i8, f32, 3, 11) }
+fn c12_t_i8_lerp_f32_11of8() { int_lerp_at!(i8, f32, 3, 11) }
 /// K: fns=i8::lerp_unclamped,i8::lerp_unclamped_precise,<&i8>::lerp_unclamped,<&i8>::lerp_precise (Lerp<f32>) | inst=i8, factor f32 = 12/8 | bound=ALL (from,to) pairs, one concrete factor
 /// K: asserts=result = round_half_away((8*from + 12*(to-from))/8) whenever that fits i8 (oracle in i32); fast, precise, by-reference; clamped form = value at clamp01(factor); no panic
 #[kani::proof]
@@ -255,15 +278,15 @@ fn c12_q_i8_lerp_f32_12of8() { int_lerp_at!(i8, f32, 3, 12) }
 /// K: fns=i8::lerp_unclamped,i8::lerp_unclamped_precise,<&i8>::lerp_unclamped,<&i8>::lerp_precise (Lerp<f32>) | inst=i8, factor f32 = 13/8 | bound=ALL (from,to) pairs, one concrete factor
 /// K: asserts=result = round_half_away((8*from + 13*(to-from))/8) whenever that fits i8 (oracle in i32); fast, precise, by-reference; clamped form = value at clamp01(factor); no panic
 #[kani::proof]
-fn c12_q_i8_lerp_f32_13of8() { int_lerp_at!(i8, f32, 3, 13) }
+fn c12_t_i8_lerp_f32_13of8() { int_lerp_at!(i8, f32, 3, 13) }
 /// K: fns=i8::lerp_unclamped,i8::lerp_unclamped_precise,<&i8>::lerp_unclamped,<&i8>::lerp_precise (Lerp<f32>) | inst=i8, factor f32 = 14/8 | bound=ALL (from,to) pairs, one concrete factor
 /// K: asserts=result = round_half_away((8*from + 14*(to-from))/8) whenever that fits i8 (oracle in i32); fast, precise, by-reference; clamped form = value at clamp01(factor); no panic
 #[kani::proof]
-fn c12_q_i8_lerp_f32_14of8() { int_lerp_at!(i8, f32, 3, 14) }
+fn c12_t_i8_lerp_f32_14of8() { int_lerp_at!(i8, f32, 3, 14) }
 /// K: fns=i8::lerp_unclamped,i8::lerp_unclamped_precise,<&i8>::lerp_unclamped,<&i8>::lerp_precise (Lerp<f32>) | inst=i8, factor f32 = 15/8 | bound=ALL (from,to) pairs, one concrete factor
 /// K: asserts=result = round_half_away((8*from + 15*(to-from))/8) whenever that fits i8 (oracle in i32); fast, precise, by-reference; clamped form = value at clamp01(factor); no panic
 #[kani::proof]
-fn c12_q_i8_lerp_f32_15of8() { int_lerp_at!(i8, f32, 3, 15) }
+fn c12_t_i8_lerp_f32_15of8() { int_lerp_at!(i8, f32, 3, 15) }
 /// K: fns=i8::lerp_unclamped,i8::lerp_unclamped_precise,<&i8>::lerp_unclamped,<&i8>::lerp_precise (Lerp<f32>) | inst=i8, factor f32 = 16/8 | bound=ALL (from,to) pairs, one concrete factor
 /// K: asserts=result = round_half_away((8*from + 16*(to-from))/8) whenever that fits i8 (oracle in i32); fast, precise, by-reference; clamped form = value at clamp01(factor); no panic
 #[kani::proof]
@@ -279,7 +302,7 @@ fn c12_t_u8_lerp_f64_m6of8() { int_lerp_at!(u8, f64, 3, -6) }
 /// K: fns=u8::lerp_unclamped,u8::lerp_unclamped_precise,<&u8>::lerp_unclamped,<&u8>::lerp_precise (Lerp<f64>) | inst=u8, factor f64 = -4/8 | bound=ALL (from,to) pairs, one concrete factor
 /// K: asserts=result = round_half_away((8*from + -4*(to-from))/8) whenever that fits u8 (oracle in i32); fast, precise, by-reference; clamped form = value at clamp01(factor); no panic
 #[kani::proof]
-fn c12_q_u8_lerp_f64_m4of8() { int_lerp_at!(u8, f64, 3, -4) }
+fn c12_t_u8_lerp_f64_m4of8() { int_lerp_at!(u8, f64, 3, -4) }
 /// K: fns=u8::lerp_unclamped,u8::lerp_unclamped_precise,<&u8>::lerp_unclamped,<&u8>::lerp_precise (Lerp<f64>) | inst=u8, factor f64 = -2/8 | bound=ALL (from,to) pairs, one concrete factor
 /// K: asserts=result = round_half_away((8*from + -2*(to-from))/8) whenever that fits u8 (oracle in i32); fast, precise, by-reference; clamped form = value at clamp01(factor); no panic
 #[kani::proof]
@@ -303,7 +326,7 @@ fn c12_t_u8_lerp_f64_6of8() { int_lerp_at!(u8, f64, 3, 6) }
 /// K: fns=u8::lerp_unclamped,u8::lerp_unclamped_precise,<&u8>::lerp_unclamped,<&u8>::lerp_precise (Lerp<f64>) | inst=u8, factor f64 = 8/8 | bound=ALL (from,to) pairs, one concrete factor
 /// K: asserts=result = round_half_away((8*from + 8*(to-from))/8) whenever that fits u8 (oracle in i32); fast, precise, by-reference; clamped form = value at clamp01(factor); no panic
 #[kani::proof]
-fn c12_q_u8_lerp_f64_8of8() { int_lerp_at!(u8, f64, 3, 8) }
+fn c12_t_u8_lerp_f64_8of8() { int_lerp_at!(u8, f64, 3, 8) }
 /// K: fns=u8::lerp_unclamped,u8::lerp_unclamped_precise,<&u8>::lerp_unclamped,<&u8>::lerp_precise (Lerp<f64>) | inst=u8, factor f64 = 10/8 | bound=ALL (from,to) pairs, one concrete factor
 /// K: asserts=result = round_half_away((8*from + 10*(to-from))/8) whenever that fits u8 (oracle in i32); fast, precise, by-reference; clamped form = value at clamp01(factor); no panic
 #[kani::proof]
@@ -311,7 +334,7 @@ fn c12_t_u8_lerp_f64_10of8() { int_lerp_at!(u8, f64, 3, 10) }
 /// K: fns=u8::lerp_unclamped,u8::lerp_unclamped_precise,<&u8>::lerp_unclamped,<&u8>::lerp_precise (Lerp<f64>) | inst=u8, factor f64 = 12/8 | bound=ALL (from,to) pairs, one concrete factor
 /// K: asserts=result = round_half_away((8*from + 12*(to-from))/8) whenever that fits u8 (oracle in i32); fast, precise, by-reference; clamped form = value at clamp01(factor); no panic
 #[kani::proof]
-fn c12_q_u8_lerp_f64_12of8() { int_lerp_at!(u8, f64, 3, 12) }
+fn c12_t_u8_lerp_f64_12of8() { int_lerp_at!(u8, f64, 3, 12) }
 /// K: fns=u8::lerp_unclamped,u8::lerp_unclamped_precise,<&u8>::lerp_unclamped,<&u8>::lerp_precise (Lerp<f64>) | inst=u8, factor f64 = 14/8 | bound=ALL (from,to) pairs, one concrete factor
 /// K: asserts=result = round_half_away((8*from + 14*(to-from))/8) whenever that fits u8 (oracle in i32); fast, precise, by-reference; clamped form = value at clamp01(factor); no panic
 #[kani::proof]
@@ -331,7 +354,7 @@ fn c12_t_i8_lerp_f64_m6of8() { int_lerp_at!(i8, f64, 3, -6) }
 /// K: fns=i8::lerp_unclamped,i8::lerp_unclamped_precise,<&i8>::lerp_unclamped,<&i8>::lerp_precise (Lerp<f64>) | inst=i8, factor f64 = -4/8 | bound=ALL (from,to) pairs, one concrete factor
 /// K: asserts=result = round_half_away((8*from + -4*(to-from))/8) whenever that fits i8 (oracle in i32); fast, precise, by-reference; clamped form = value at clamp01(factor); no panic
 #[kani::proof]
-fn c12_q_i8_lerp_f64_m4of8() { int_lerp_at!(i8, f64, 3, -4) }
+fn c12_t_i8_lerp_f64_m4of8() { int_lerp_at!(i8, f64, 3, -4) }
 /// K: fns=i8::lerp_unclamped,i8::lerp_unclamped_precise,<&i8>::lerp_unclamped,<&i8>::lerp_precise (Lerp<f64>) | inst=i8, factor f64 = -2/8 | bound=ALL (from,to) pairs, one concrete factor
 /// K: asserts=result = round_half_away((8*from + -2*(to-from))/8) whenever that fits i8 (oracle in i32); fast, precise, by-reference; clamped form = value at clamp01(factor); no panic
 #[kani::proof]
@@ -355,7 +378,7 @@ fn c12_t_i8_lerp_f64_6of8() { int_lerp_at!(i8, f64, 3, 6) }
 /// K: fns=i8::lerp_unclamped,i8::lerp_unclamped_precise,<&i8>::lerp_unclamped,<&i8>::lerp_precise (Lerp<f64>) | inst=i8, factor f64 = 8/8 | bound=ALL (from,to) pairs, one concrete factor
 /// K: asserts=result = round_half_away((8*from + 8*(to-from))/8) whenever that fits i8 (oracle in i32); fast, precise, by-reference; clamped form = value at clamp01(factor); no panic
 #[kani::proof]
-fn c12_q_i8_lerp_f64_8of8() { int_lerp_at!(i8, f64, 3, 8) }
+fn c12_t_i8_lerp_f64_8of8() { int_lerp_at!(i8, f64, 3, 8) }
 /// K: fns=i8::lerp_unclamped,i8::lerp_unclamped_precise,<&i8>::lerp_unclamped,<&i8>::lerp_precise (Lerp<f64>) | inst=i8, factor f64 = 10/8 | bound=ALL (from,to) pairs, one concrete factor
 /// K: asserts=result = round_half_away((8*from + 10*(to-from))/8) whenever that fits i8 (oracle in i32); fast, precise, by-reference; clamped form = value at clamp01(factor); no panic
 #[kani::proof]
@@ -363,7 +386,7 @@ fn c12_t_i8_lerp_f64_10of8() { int_lerp_at!(i8, f64, 3, 10) }
 /// K: fns=i8::lerp_unclamped,i8::lerp_unclamped_precise,<&i8>::lerp_unclamped,<&i8>::lerp_precise (Lerp<f64>) | inst=i8, factor f64 = 12/8 | bound=ALL (from,to) pairs, one concrete factor
 /// K: asserts=result = round_half_away((8*from + 12*(to-from))/8) whenever that fits i8 (oracle in i32); fast, precise, by-reference; clamped form = value at clamp01(factor); no panic
 #[kani::proof]
-fn c12_q_i8_lerp_f64_12of8() { int_lerp_at!(i8, f64, 3, 12) }
+fn c12_t_i8_lerp_f64_12of8() { int_lerp_at!(i8, f64, 3, 12) }
 /// K: fns=i8::lerp_unclamped,i8::lerp_unclamped_precise,<&i8>::lerp_unclamped,<&i8>::lerp_precise (Lerp<f64>) | inst=i8, factor f64 = 14/8 | bound=ALL (from,to) pairs, one concrete factor
 /// K: asserts=result = round_half_away((8*from + 14*(to-from))/8) whenever that fits i8 (oracle in i32); fast, precise, by-reference; clamped form = value at clamp01(factor); no panic
 #[kani::proof]
@@ -371,7 +394,7 @@ fn c12_t_i8_lerp_f64_14of8() { int_lerp_at!(i8, f64, 3, 14) }
 /// K: fns=i8::lerp_unclamped,i8::lerp_unclamped_precise,<&i8>::lerp_unclamped,<&i8>::lerp_precise (Lerp<f64>) | inst=i8, factor f64 = 16/8 | bound=ALL (from,to) pairs, one concrete factor
 /// K: asserts=result = round_half_away((8*from + 16*(to-from))/8) whenever that fits i8 (oracle in i32); fast, precise, by-reference; clamped form = value at clamp01(factor); no panic
 #[kani::proof]
-fn c12_q_i8_lerp_f64_16of8() { int_lerp_at!(i8, f64, 3, 16) }
+fn c12_t_i8_lerp_f64_16of8() { int_lerp_at!(i8, f64, 3, 16) }
 
 // ---- thorough: the odd k/8 with f64; the odd k/16 in [-16,32] with f32 (u8); 16-bit: k/8 for k in {-8,0,4,8,16}
 // (decided in 2-660 s) and ONE odd numerator (u16, 5/8) kept as the honest attempt: -3/8, 5/8, 13/8 hit the 900 s cap ----
